@@ -284,7 +284,7 @@ static void op_drain()
     int err = Socket::getLastError();
     log_recv("recv", e, 1 << 20, 0, 0, drainBuf, r, err);
     note_recv(e, r, 1 << 20);
-    if(r > 0) total += r;
+    if(r > 0) { total += r; deadline = now_ms() + 8000; alarm(g_op_timeout); }     // the deadline is for progress
     else if(r == 0) break;
     else if(err != 0) failed = 1;
   }
@@ -363,7 +363,7 @@ static void op_usendto(int huge)
   ssize r = us[u]->sendTo(data, (usize)n, Socket::loopbackAddress, (uint16)uport[v]);
   int err = Socket::getLastError();
   if(uport[u] == 0) { uint32 ip; uint16 port; if(us[u]->getSockName(ip, port)) uport[u] = port; }
-  dg[id].from = u; dg[id].to = v; dg[id].n = huge ? -1 : (long)n; dg[id].got = 0; dg[id].sport = uport[u];
+  dg[id].from = u; dg[id].to = v; dg[id].n = (huge || r != (ssize)n) ? -1 : (long)n; dg[id].got = 0; dg[id].sport = uport[u];   // n = -1: nothing was sent
   ev_begin(huge ? "usendtohuge" : "usendto"); j_int("u", u); j_int("v", v);
   if(huge) log_size(n); else j_int("n", n);
   j_int("id", id); j_int("r", r); j_int("err", err); j_int("port", uport[u]); j_end();
